@@ -203,23 +203,27 @@ static void op_edm(int argc, char **argv) {
 /* eds <variant> <P> <k> <Q> <m> : k*P + m*Q ; variant gen uses the generator for P */
 static void op_eds(int argc, char **argv) {
 	if (argc < 6) { fprintf(OUT, "bad-args\n"); return; }
-	const char *v = argv[1];
+	/* suffix .p / .q of the variant: the result object is the first / second point operand */
+	char v[32]; int al = 0;
+	snprintf(v, sizeof(v), "%s", argv[1]);
+	{ char *dot = strchr(v, '.'); if (dot) { al = dot[1] == 'p' ? 1 : (dot[1] == 'q' ? 2 : 0); *dot = 0; } }
 	int caught = 0;
 	ed_t p, q, c; bn_t k, m; raw_t r;
 	ed_null(p); ed_null(q); ed_null(c); ed_new(p); ed_new(q); ed_new(c); bn_null(k); bn_new(k); bn_null(m); bn_new(m);
 	fp_set_dig(c->x, 7); fp_set_dig(c->y, 7); fp_set_dig(c->z, 7); fp_set_dig(c->t, 7); c->coord = BASIC;
 	ed_tok(p, argv[2]); raw_parse(&r, argv[3]); raw_to_bn(k, &r);
 	ed_tok(q, argv[4]); raw_parse(&r, argv[5]); raw_to_bn(m, &r);
+	ed_st *cc = al == 1 ? p : (al == 2 ? q : c);
 	RLC_TRY {
-		if (!strcmp(v, "sim")) ed_mul_sim(c, p, k, q, m);
-		else if (!strcmp(v, "basic")) ed_mul_sim_basic(c, p, k, q, m);
-		else if (!strcmp(v, "trick")) ed_mul_sim_trick(c, p, k, q, m);
-		else if (!strcmp(v, "inter")) ed_mul_sim_inter(c, p, k, q, m);
-		else if (!strcmp(v, "joint")) ed_mul_sim_joint(c, p, k, q, m);
-		else if (!strcmp(v, "gen")) ed_mul_sim_gen(c, k, q, m);
+		if (!strcmp(v, "sim")) ed_mul_sim(cc, p, k, q, m);
+		else if (!strcmp(v, "basic")) ed_mul_sim_basic(cc, p, k, q, m);
+		else if (!strcmp(v, "trick")) ed_mul_sim_trick(cc, p, k, q, m);
+		else if (!strcmp(v, "inter")) ed_mul_sim_inter(cc, p, k, q, m);
+		else if (!strcmp(v, "joint")) ed_mul_sim_joint(cc, p, k, q, m);
+		else if (!strcmp(v, "gen")) ed_mul_sim_gen(cc, k, q, m);
 		else { fprintf(OUT, "unknown-eds %s\n", v); return; }
 	} RLC_CATCH_ANY { caught = 1; }
-	if (take_err() || caught) fprintf(OUT, "err"); else ed_out(c, sys_t());
+	if (take_err() || caught) fprintf(OUT, "err"); else ed_out(cc, sys_t());
 	fputc('\n', OUT);
 }
 
